@@ -295,7 +295,7 @@ def _cli_obs(st):
     return ob
 
 
-def docstring_exec_part(rep, tier):
+def docstring_exec_part(rep, tier, pid="C02"):
     """C02 on descriptions: every description MC_Desc enumerates (character classes: quotes,
     backslashes, CR, NUL, non-ASCII; at every position up to the bound) is parsed, the module
     generated and executed.  Docstring.tla predicts whether the emitted class source reads back;
@@ -312,7 +312,7 @@ def docstring_exec_part(rep, tier):
         if "err" in ob or not ob["ok"]:
             bad += 1
             how = "design level: the specification's emitter predicts it" if not st["ok"] else "the specification's emitter predicts a module that executes"
-            rep.violation(("C02", "generated-module-does-not-execute", "description", checks_desc.features(st["s"])),
+            rep.violation((pid, "generated-module-does-not-execute", "description", checks_desc.features(st["s"])),
                           f"generated-module-does-not-execute: object schema with description {ob['text']!r}: "
                           f"{ob.get('py_err') or ob.get('err')} ({how})", dict(state=st, observed=ob))
     return dict(descriptions=len(work), states=meta["distinct"], not_executing=bad)
